@@ -205,7 +205,7 @@ fn unit_factor(u: &str) -> i128 {
 pub fn inputs_c03(r: &mut Rng, n: usize, _tier: &str, out: &mut dyn Write) {
     for _ in 0..n {
         let a = total(r);
-        let b = match r.below(8) {
+        let b = match r.below(9) {
             0 => a,
             1 => -a,
             2 => a + r.range_i64(-2, 2) as i128,
@@ -213,6 +213,8 @@ pub fn inputs_c03(r: &mut Rng, n: usize, _tier: &str, out: &mut dyn Write) {
             4 => a + NPC * r.range_i64(-1, 1) as i128,
             5 => NPC - a, // the shape of the zero-crossing special case away from zero
             6 => -NPC - a,
+            // different counts that coincide once truncated to 64 / 63 / 32 bits
+            8 => (if r.chance(1, 2) { a } else { -a }) + (*r.pick(&[-2i128, -1, 1, 2])) * (*r.pick(&[1i128 << 64, 1i128 << 63, 1i128 << 32])),
             _ => partner(r, a),
         }
         .clamp(DMIN, DMAX);
@@ -236,7 +238,9 @@ pub fn inputs_c03(r: &mut Rng, n: usize, _tier: &str, out: &mut dyn Write) {
                 let u = unit_name(r);
                 let a2 = if r.chance(1, 2) {
                     let s: i128 = if r.chance(1, 2) { 1 } else { -1 };
-                    s * unit_factor(u) + r.range_i64(-1, 1) as i128
+                    // one unit, or a count that coincides with it once truncated to 64 / 63 / 32 bits
+                    let alias = if r.chance(1, 4) { (*r.pick(&[-3i128, -2, -1, 1, 2, 3])) * (*r.pick(&[1i128 << 64, 1i128 << 63, 1i128 << 32])) } else { 0 };
+                    (s * unit_factor(u) + alias + r.range_i64(-1, 1) as i128).clamp(DMIN, DMAX)
                 } else {
                     a
                 };
